@@ -17,8 +17,9 @@ fn worlds(thorough: bool) -> Vec<Built> {
     let mut v = vec![stdworlds::build_with_roots(&stdworlds::std_spec("c03-std", [Enc::Dynamic, Enc::Fixed, Enc::Dynamic], 3000, 300), &roots[1..])];
     let splash_roots: Vec<(&'static str, Vec<Op>)> = vec![("funded", vec![Op::Inc { pos: 0, liq: 1_000_000, v2: false }, Op::Inc { pos: 1, liq: 7, v2: true }])];
     v.push(stdworlds::build_with_roots(&stdworlds::splash_spec("c03-splash"), &splash_roots));
+    // either token program: Token-2022 mints with different transfer fees (thresholds apply to what the trader receives / pays)
+    v.push(stdworlds::build_with_roots(&stdworlds::t22_spec("c03-t22", 100, 5_000, 5_000, u64::MAX), if thorough { &roots[1..3] } else { &roots[1..2] }));
     if thorough {
-        v.push(stdworlds::build_with_roots(&stdworlds::t22_spec("c03-t22", 100, 5_000, 5_000, u64::MAX), &roots[1..3]));
         let ts1_roots: Vec<(&'static str, Vec<Op>)> = vec![(
             "funded",
             vec![Op::Inc { pos: 0, liq: stdworlds::BIG * 1000, v2: false }, Op::Inc { pos: 1, liq: stdworlds::BIG * 100, v2: true }, Op::Inc { pos: 2, liq: stdworlds::BIG * 100, v2: true }],
